@@ -141,6 +141,18 @@ func execKind(coll moss.Collection, key, child string) error {
 		return err
 	}
 	defer b.Close()
+	if strings.HasPrefix(child, "del:") { // nothing but the deletion of a child collection
+		if err := b.DelChildCollection(child[4:]); err != nil {
+			return err
+		}
+		return coll.ExecuteBatch(b, moss.WriteOptions{})
+	}
+	if strings.HasPrefix(child, "new:") { // nothing but a still empty child collection
+		if _, err := b.NewChildCollectionBatch(child[4:], moss.BatchOptions{}); err != nil {
+			return err
+		}
+		return coll.ExecuteBatch(b, moss.WriteOptions{})
+	}
 	cb, err := b.NewChildCollectionBatch(child, moss.BatchOptions{TotalOps: 1, TotalKeyValBytes: 64})
 	if err != nil {
 		return err
@@ -162,6 +174,10 @@ func childFor(mode string, w int) string {
 		if w%2 == 0 {
 			return fmt.Sprintf("W%d", w%3)
 		}
+	case "delonly":
+		return fmt.Sprintf("del:W%d", w%3)
+	case "createonly":
+		return fmt.Sprintf("new:W%d", w)
 	}
 	return ""
 }
@@ -554,6 +570,76 @@ func runC16(cs *c16Case, scratch string, idx int, sr *run.ShardResult) (class, d
 		if c, d := afterCloseChecks(coll, nil); c != "" {
 			return c, d
 		}
+	case "writers-behind-busy-merger":
+		// The merger is in the middle of a cycle (held right after its
+		// ingest) while MaxPreMergerBatches batches are accepted and one more
+		// writer blocks.  Nothing else will ever notify the merger: when it
+		// finishes its cycle it has to see for itself that batches are
+		// waiting - whatever they hold (top-level keys, only a child batch,
+		// only a child deletion or creation) - and take them, which lets the
+		// blocked writer in.
+		cfg := cs.Cfg
+		cfg.IdleMS = 0
+		if cfg.Backing == "custom" {
+			cfg.Backing = "none"
+		}
+		e := eng.NewExec(cfg, dir, false)
+		defer e.D.Detach()
+		if err := e.Open(); err != nil {
+			return "inconclusive", "open: " + err.Error()
+		}
+		coll := e.Coll
+		e.D.ArmOnce("merger.ingested")
+		if err := execOne(coll, "first"); err != nil {
+			return "inconclusive", err.Error()
+		}
+		if !e.D.WaitParked("merger", "merger.ingested") {
+			e.D.DisarmAll()
+			return "inconclusive", "watchdog: merger did not reach merger.ingested"
+		}
+		for w := 0; w < maxPre; w++ {
+			if err := execKind(coll, fmt.Sprintf("a%d", w), childFor(cs.Child, w)); err != nil {
+				e.D.DisarmAll()
+				return "inconclusive", err.Error()
+			}
+		}
+		set := &callSet{}
+		blocked := set.goCall("ExecuteBatch#blocked", func() error { return execKind(coll, "blocked", childFor(cs.Child, maxPre)) })
+		deadline := time.Now().Add(wd)
+		for {
+			st, _ := coll.Stats()
+			if st != nil && st.TotExecuteBatchWaitBeg >= 1 {
+				break
+			}
+			if blocked.finished() {
+				e.D.DisarmAll()
+				return "backpressure-exceeded", fmt.Sprintf("%d batches (%s) accepted while the merger was busy, MaxPreMergerBatches=%d", maxPre+1, cs.Child, maxPre)
+			}
+			if time.Now().After(deadline) {
+				e.D.DisarmAll()
+				return "inconclusive", "watchdog: the extra writer neither blocked nor returned"
+			}
+			time.Sleep(200 * time.Microsecond)
+		}
+		unit("blocked-behind-busy-merger:" + cs.Child)
+		e.D.DisarmAll() // the merger finishes its cycle
+		if h, inc := set.waitAll(wd); h != "" {
+			return "hang/writer-behind-busy-merger", h
+		} else if inc != "" {
+			return "inconclusive", inc
+		}
+		if blocked.err != nil {
+			return "released-writer-error", fmt.Sprintf("%s returned %v", blocked.name, blocked.err)
+		}
+		set2 := &callSet{}
+		set2.goCall("Close", func() error { return coll.Close() })
+		if h, inc := set2.waitAll(wd); h != "" {
+			return "hang/close", h
+		} else if inc != "" {
+			return "inconclusive", inc
+		}
+		e.Coll = nil
+		e.CloseStore()
 	case "merge-refused-with-blocked-writers":
 		// The application's merge operator refuses to merge (FullMerge
 		// returns false) in every merger cycle for a while.  The merger has
@@ -1116,7 +1202,7 @@ func collClosed(c moss.Collection) bool {
 var c16Scenarios = []string{"backpressure-close", "backpressure-release", "close-during-update", "close-merger-waitoutgoing",
 	"notify-racing-close", "lower-stalled-resumed", "random-close", "random-close", "notify-flood", "notify-flood", "close-writer-parked-installed",
 	"round-completes-as-merger-starts-waiting", "close-while-lower-keeps-failing", "sync-notify-queued-behind-async",
-	"merge-refused-with-blocked-writers"}
+	"merge-refused-with-blocked-writers", "writers-behind-busy-merger"}
 
 func genC16(r *eng.Rng, idx int) *c16Case {
 	sc := c16Scenarios[idx%len(c16Scenarios)]
@@ -1136,6 +1222,9 @@ func genC16(r *eng.Rng, idx int) *c16Case {
 	if strings.HasPrefix(sc, "backpressure-") && cfg.Backing != "custom" && r.Chance(1, 2) {
 		// the bound is on accepted batches, whatever they touch
 		c.Child = []string{"same", "distinct", "mixed"}[r.Intn(3)]
+	}
+	if sc == "writers-behind-busy-merger" {
+		c.Child = []string{"", "same", "distinct", "mixed", "delonly", "createonly"}[r.Intn(6)]
 	}
 	return c
 }
